@@ -21,6 +21,8 @@
 // the read-only hook to cap-2 / cap-1 remembered values: replays of G rejected; from cap on the model
 // decides); rounds of 16 DISTINCT fresh handshakes released together, then replays of an older one
 // and of a sample (all rejected, filter size = number accepted); 16-way bursts of one blob on a
+// pre-aged filters (entries inserted through the hook with past times; a real pause until the
+// oldest one expires; a handshake accepted seconds ago must still be rejected afterwards); a
 // bridge that remembers nothing (regression of the repaired defect concurrent-replay-on-empty-filter:
 // before 'fix: replayfilter: read the clock under the lock …' about 1 % of such rounds showed 2 successes). (The 3 h expiry of filter entries cannot be waited for: that part is carried by the
 // theorem C04.at_most_once and C11's own tie.)
@@ -55,6 +57,7 @@ type op struct {
 	SrvSeed uint64 `json:"srv_seed"`
 	N       int    `json:"n,omitempty"` // fill: number of direct TestAndSet calls with fresh random values; cburst: number of distinct handshakes
 	M       int    `json:"m,omitempty"` // replay of a cburst: which member
+	AgeMs   int64  `json:"age_ms,omitempty"` // age: TestAndSet(now - AgeMs, fresh random value) through the hook; sleep: real pause
 }
 
 type history struct {
@@ -250,6 +253,7 @@ func runHistory(w *worker, h history) bool {
 	}
 	var recs []rec
 	cbs := map[int][]sub{}  // members of the cburst ops
+	aged := false           // the history contains entries that expire while it runs: sizes are judged by the model only
 	remembered := 0         // S bookkeeping: handshakes accepted + values filled in so far (no expiry inside a run)
 	maxFilter := 0
 	fmt.Sscan(replayfilter.VerifConstants()["maxFilterSize"], &maxFilter)
@@ -264,6 +268,27 @@ func runHistory(w *worker, h history) bool {
 	}()
 	for i, o := range h.Ops {
 		rng := vlib.NewRng(o.Seed)
+		if o.Kind == "age" {
+			// pre-age the filter: an entry inserted AgeMs ago (past, monotonically increasing times)
+			if !hok {
+				continue
+			}
+			aged = true
+			filter.TestAndSet(time.Now().Add(-time.Duration(o.AgeMs)*time.Millisecond), rng.Bytes(16))
+			at := srvh.NowNs() - o.AgeMs*1_000_000
+			_, fl := replayfilter.VerifLen(filter)
+			remembered++
+			recs = append(recs, rec{i: i, fill: true, flen: fl, now: at,
+				desc: fmt.Sprintf("bridge seed %d, op #%d: entry inserted %d ms in the past", h.IdSeed, i, o.AgeMs)})
+			continue
+		}
+		if o.Kind == "sleep" {
+			time.Sleep(time.Duration(o.AgeMs) * time.Millisecond)
+			if o4h.Hour() != hour {
+				return false
+			}
+			continue
+		}
 		if o.Kind == "fill" {
 			if !hok {
 				continue
@@ -424,7 +449,11 @@ func runHistory(w *worker, h history) bool {
 		r.Count("op", o.Kind)
 		r.Count("hour_offset", fmt.Sprintf("%+d", subs[rc.i].off))
 		if rc.fill {
-			n, how := w.srv.FacFill(fname, rc.now, o.N)
+			cnt := o.N
+			if o.Kind == "age" {
+				cnt = 1
+			}
+			n, how := w.srv.FacFill(fname, rc.now, cnt)
 			r.Count("impl_outcome", "fill("+how+")")
 			if n != rc.flen {
 				violate("replay-filter-size-differs", "correspondence",
@@ -605,7 +634,7 @@ func runHistory(w *worker, h history) bool {
 			violate("replay-filter-size-differs", "correspondence",
 				fmt.Sprintf("replay filter holds %d/%d entries, model %d", ml, fl, mlen), h, len(h.Ops)-1, w)
 		}
-		if remembered < maxFilter && fl != remembered {
+		if !aged && remembered < maxFilter && fl != remembered {
 			violate("filter-forgot-accepted-handshakes", "impl-oracle",
 				fmt.Sprintf("%d handshakes/values were accepted into the replay filter (all well inside the TTL, below capacity) but it remembers %d", remembered, fl), h, len(h.Ops)-1, w)
 		}
@@ -746,6 +775,36 @@ func genCapHistory(rng *vlib.Rng, maxFilter int) history {
 	return h
 }
 
+// genAgedHistory: "cannot wait 3 h" — the filter is pre-aged through the hook: A inserted replayTTL
+// minus a few seconds ago, a few more entries in between (past, increasing times), then a genuine
+// handshake H over the wire and its replay; then a REAL pause until A has expired, a fresh
+// handshake (its submission purges A) and H replayed again: H is a few seconds old, so it must
+// still be rejected — the expiry of an older entry must not take younger ones with it.
+func genAgedHistory(rng *vlib.Rng) history {
+	h := history{IdSeed: rng.U64()}
+	add := func(o op) int { h.Ops = append(h.Ops, o); return len(h.Ops) - 1 }
+	ttlMs := int64(cint("replayTTL")) / 1_000_000
+	lead := int64(rng.Range(2500, 3500)) // A expires this many ms from now
+	add(op{Kind: "age", Seed: rng.U64(), AgeMs: ttlMs - lead, Of: -1})
+	for _, ms := range []int64{ttlMs - 60_000, 2 * 3600_000, 3600_000 + int64(rng.Intn(1000_000)), 600_000, 5_000} {
+		if rng.Intn(3) > 0 {
+			add(op{Kind: "age", Seed: rng.U64(), AgeMs: ms, Of: -1})
+		}
+	}
+	hh := add(freshOp(rng, vlib.Pick(rng, []int{0, 0, -1, 1})))
+	add(op{Kind: "replay", Of: hh, SrvSeed: rng.U64()})
+	h2 := add(freshOp(rng, 0))
+	add(op{Kind: "sleep", AgeMs: lead + 700, Of: -1})
+	if rng.Intn(2) == 0 {
+		add(freshOp(rng, 0)) // a fresh handshake first: its submission purges A
+	}
+	add(op{Kind: "replay", Of: hh, SrvSeed: rng.U64()})
+	add(op{Kind: "replay", Of: h2, SrvSeed: rng.U64()})
+	add(freshOp(rng, 0))
+	add(op{Kind: "replay", Of: hh, SrvSeed: rng.U64()})
+	return h
+}
+
 // genConcHistory: one accepted handshake G, then rounds of DISTINCT fresh handshakes submitted
 // simultaneously (16 goroutines released together), then replays of G and of a sample of them.
 func genConcHistory(rng *vlib.Rng, rounds int) history {
@@ -814,6 +873,9 @@ func main() {
 		for i, n := 0, r.Scale(2, 8); i < n; i++ {
 			hs = append(hs, genCapHistory(rng.Fork(), maxFilter))
 		}
+	}
+	for i, n := 0, r.Scale(3, 12); i < n; i++ {
+		hs = append(hs, genAgedHistory(rng.Fork()))
 	}
 	rounds := 10
 	if r.Mode == "search" {
